@@ -32,6 +32,12 @@ add("C14", "Theorems about Ebr.v for all programs and schedules: the global epoc
 add("C15", "Safety half proved, progress half partial. Proved (Coq, every program incl. closures that defer again, every number of participants, every schedule): the multiset of deferred-function ids held in programs, continuation frames, thread-local bags, the global queue of sealed bags and the list of executed ids is invariant under every transition of Ebr.v (C15_micro_conserves) - nothing is lost, duplicated or invented; with distinct ids no function runs twice and each id is always either executed exactly once or held in exactly one place (C15_exactly_once); a function is only ever executed by the transition that takes it out of a popped bag (C15_micro_runs). Progress: a sequential drain theorem (C15_drain: other participants idle, length(queue)+3 pin/flush/unpin rounds execute everything, empty bodies) and try_advance_increments; no concurrent liveness theorem. Tied to the code by exact replay of the real collector (every execution 2010 is an observation compared step by step), an implementation-side exactly-once and quiescence monitor (executed = deferred after the handles are released and the survivor runs rounds), and the c15 stream for what the model does not contain: thread exit with pending garbage in five release orders, bag overflow, inline vs boxed closure storage (captures 0..4096 bytes, alignments up to 64) with checksummed captured data.",
     "Model hand-written; tie sampled. Thread exit is not in Ebr.v (it is in the sequential guard model of C20 and in the c15 stream). Liveness under concurrency is tested, not proved.",
     "Coq proof (conservation invariant, exactly-once corollaries, sequential drain) over hand-written model + schedule-driven correspondence + implementation-side exit/closure-storage stream")
+add("C16", "Theorems about the hand-written sequential model GuardSeq.v of one participant (functions transcribed one-to-one from internal.rs / guard.rs), for every well-formed program incl. closures whose bodies use the API during collection: at every operation boundary the thread is pinned iff a guard is live and guard_count equals the number of live guards, also at every prefix of every closure body (C16_pinned_iff, C16_pinned_in_closure); reactivate / reactivate_after store the unpinned epoch exactly once iff called on the sole live guard, and leave the thread pinned with all counts restored - also when the closure panics (C16_reactivate, C16_reactivate_panic); the participant is finalized only by the release of the last handle/guard (C16_no_finalize_midway); the records of other participants are never written (C16_frame). Tied to the code by running generated programs on the real participant and through the extracted model (every observable must agree), in a release build and in a build with the crate's debug assertions on, plus direct checks on the implementation after every operation.",
+    "Model hand-written and sequential (one participant); tie sampled. 'Other threads are unaffected' is proved as a frame property of the model; concurrent behaviour is C13/C14's model. The panic path is exercised by the harness (catch_unwind), its model transition is by definition.",
+    "Coq proof (invariant at operation boundaries and inside collections) over hand-written sequential model + differential correspondence in two build profiles")
+add("C20", "Partial (the logical half). Theorems about GuardSeq.v for every well-formed program: no stuck state, no counter overflow, and the `while must_collect` loop terminates (potential argument) for programs up to 2^18 operations with MAX_OBJECTS >= 2 (C20_no_stuck); once the handle is dropped and no guard is live the participant is finalized, its bag is empty and every deferred function is either executed or in a sealed bag of the global queue (C20_handover, C20_exit_finalizes); after the collector is dropped everything ran (C20_all_run); for every order of thread-local destruction relative to the HANDLE thread-local (before, after, never initialised) and every balanced sequence of API calls from the destructor nothing is left in a retired participant (C20_tls_no_loss). Tied to the code by the `@guard` and `@tls` streams (real threads, three handle orders, seven kinds of API use in the destructor, MAX_OBJECTS 64/2/3), in release and debug-assertion builds. Finding D11 (Guard::reactivate on a fallback guard aborted debug builds) was found here and repaired (fix a2e37e2). What no Gallina model exhibits - std's destructor order, try_with failing during tear-down, a panic in a TLS destructor aborting the process, deadlock - is observed at run time only.",
+    "Model hand-written; tie sampled. The OS/std half of the property is tested, not proved. The path where finalize drops the last collector reference is not modelled.",
+    "Coq proof (termination + conservation at thread exit) over hand-written sequential model + differential correspondence with real thread-local destructors")
 add("C17", "Theorems about the hand-written model Queue.v of the Michael-Scott queue at one-shared-access granularity, for all programs and schedules: structural invariant (write-once next, finite duplicate-free chain, head/tail on it), linearisation points (successful CAS on tail_node.next appends exactly that value; successful CAS on head removes the first element and is what the operation later returns), FIFO (pushed = popped ++ queue, each node removed at most once), try_pop_if removes the very element its predicate was evaluated on, and a None answer implies the queue was empty or its then-first element failed the predicate at an instant inside the call. Tied to the real queue (sites 30..44) by exact step-by-step replay.",
     "Model hand-written; tie sampled. SC only. Nodes not reused inside a case (justified by C13). No spurious CAS failure.",
     "Coq proof (invariant + history variables) over hand-written model + schedule-driven correspondence")
@@ -71,8 +77,6 @@ PENDING = {
     "C04": "model M3 under construction; not yet registered",
     "C05": "model M3 under construction; not yet registered",
     "C10": "model M3 under construction; not yet registered",
-    "C16": "sequential guard model under construction",
-    "C20": "sequential guard/TLS model under construction",
 }
 hooks = os.popen("git -C /repo log --format=%h --grep='^verif hooks'").read().split()
 m = {
